@@ -72,7 +72,7 @@ def gen(rng, tier):
     # one mnemonic, many indices: output formatting must hold for every key (leading zero nibbles/bytes in
     # the address, the secret, the coordinates occur for roughly 1 key in 16 / 256)
     mn_sweep = hx(" ".join(bip39.rand_phrase(rng, 12)))
-    for i in range(400 if tier == "thorough" else 120):
+    for i in range(600 if tier == "thorough" else 240):
         for cmd in ("cli.address", "cli.export", "cli.public_key"):
             add("%s %s - idx:%s" % (cmd, mn_sweep, hx(str(i))), (cmd, "index-sweep"), {"via": {"mnemonic": "env", "index": "flag"}})
     # bad selectors / conflicts
